@@ -10,8 +10,8 @@ from . import common as C
 
 HEADER = 'From WM Require Import Base.Prelude RouterLife.Model RouterLife.Monitor Corr.C10.\n'
 # which variant of the model corresponds to the code in the repo (flipped by the fix: commits)
-FIXED_D4 = False
-FIXED_D14 = False
+FIXED_D4 = True
+FIXED_D14 = True
 
 CODES = {
     1: ('C10/running-before-subscribed', 'Running() was closed while a handler registered before Run had no subscription'),
